@@ -853,3 +853,18 @@ Proof.
   - destruct (beq x _); [eexists; reflexivity|exact Hx].
   - exact Hx.
 Qed.
+
+(* `under` is Path.Matches for a canonical name: nothing is lost by not re-normalising it *)
+Theorem under_is_path_matches cs f b :
+  clean f = f -> ends_with_slash f = false -> path_matches cs f b = under cs f b.
+Proof.
+  intros Hc He. rewrite path_matches_under. unfold matcher_form. rewrite Hc, He, app_nil_r. reflexivity.
+Qed.
+
+Theorem resolved_canonical p : rooted p -> resolved p <> [SLASH] ->
+  clean (resolved p) = resolved p /\ ends_with_slash (resolved p) = false.
+Proof.
+  intros Hr Hne. rewrite (resolved_clean p Hr) in *. split; [apply clean_idempotent_rooted; exact Hr|].
+  destruct (clean_not_root_shape p Hr Hne) as (segs & Hs & E & Hg). rewrite E.
+  apply ends_with_slash_shape; assumption.
+Qed.
